@@ -271,11 +271,11 @@ def gen_cases(ctx):
         if c["kind"] == "par":
             c["lit"], _ = parlit_tokens(rng, c["n"], c["rows"], c["parts"], c["explicit"])
         cases.append(c)
-    nseq = ctx.scale(2500, 30000)
+    nseq = ctx.scale(1800, 24000)
     for _ in range(nseq):
         c = gen_off(rng, "s%d" % k, 0) if rng.random() < 0.08 else gen_seq(rng, "s%d" % k)
         k += 1; cases.append(c)
-    per_np = ctx.scale({1: 500, 2: 1000, 3: 1000, 4: 1000, 5: 500, 7: 400}, {1: 6000, 2: 12000, 3: 12000, 4: 12000, 5: 6000, 7: 5000})
+    per_np = ctx.scale({1: 400, 2: 700, 3: 700, 4: 700, 5: 400, 7: 300}, {1: 5000, 2: 9000, 3: 9000, 4: 9000, 5: 5000, 7: 4000})
     for np_, cnt in per_np.items():
         for _ in range(cnt):
             c = gen_off(rng, "p%d" % k, np_) if rng.random() < 0.08 else gen_par(rng, "p%d" % k, np_)
